@@ -3,6 +3,7 @@ import RsModel.Lemmas.DeclMap
 import RsModel.Lemmas.ModeCold
 import RsModel.Lemmas.StrictIn
 import RsModel.Lemmas.StrictOrder
+import RsModel.Lemmas.LinesTree
 import RsModel.Lemmas.ReplaceOrig
 /-!
 # C11 — produced source maps and chunk streams are well-formed
@@ -173,5 +174,69 @@ theorem c11_map_strict (s : Src) (h : s.ModeHypC) (hs : s.StrictMaps) (hn : s.id
 example : (Src.concat (.cons (.orig [97, 59, 10, 98] [102]) (.cons (.sms [120, 32, 121] [103] ⟨[65, 65, 65, 65, 44, 69, 65, 65, 69], [[115]], [], [], none, none, none⟩ none none false) .nil))).StrictMaps := by
   simp only [Src.StrictMaps, SrcList.StrictMapsL]
   exact ⟨trivial, by decide, trivial⟩
+
+
+/-! ## the map clause, columns = false -/
+
+theorem keptLines_facts : ∀ (ms : List Mapping) (e : LEncSt), linesOK e.lastWritten ms →
+    (∀ x ∈ keptLines e ms, x.gc = 0 ∧ e.lastWritten < x.gl ∧ ∃ m ∈ ms, m.orig.isSome = true ∧ x.gl = m.gl)
+    ∧ (keptLines e ms).Pairwise (fun a b => a.gl < b.gl) := by
+  intro ms
+  induction ms with
+  | nil => intro e _; exact ⟨fun x hx => by simp [keptLines] at hx, by simp [keptLines]⟩
+  | cons m ms ih =>
+    intro e hl
+    obtain ⟨h1, h2⟩ := hl
+    have hrest : linesOK e.lastWritten ms := linesOK_mono h1 ms h2
+    simp only [keptLines]
+    cases ho : m.orig with
+    | none =>
+      simp only []
+      obtain ⟨a, b⟩ := ih e hrest
+      exact ⟨fun x hx => by obtain ⟨x1, x2, m', hm', x3⟩ := a x hx; exact ⟨x1, x2, m', List.mem_cons_of_mem _ hm', x3⟩, b⟩
+    | some o =>
+      simp only []
+      by_cases heq : (e.lastWritten == m.gl) = true
+      · simp only [heq, if_true]
+        obtain ⟨a, b⟩ := ih e hrest
+        exact ⟨fun x hx => by obtain ⟨x1, x2, m', hm', x3⟩ := a x hx; exact ⟨x1, x2, m', List.mem_cons_of_mem _ hm', x3⟩, b⟩
+      · simp only [heq, Bool.false_eq_true, if_false]
+        have hne : e.lastWritten ≠ m.gl := by simpa using heq
+        have hlw : (lencStep e m).1.lastWritten = m.gl := by simp [lencStep, ho, heq]
+        obtain ⟨a, b⟩ := ih (lencStep e m).1 (by rw [hlw]; exact h2)
+        constructor
+        · intro x hx
+          rcases List.mem_cons.1 hx with rfl | hx
+          · exact ⟨rfl, by simp only; omega, m, by simp, by rw [ho]; rfl, rfl⟩
+          · obtain ⟨x1, x2, m', hm', x3⟩ := a x hx
+            rw [hlw] at x2
+            exact ⟨x1, by omega, m', List.mem_cons_of_mem _ hm', x3⟩
+        · refine List.Pairwise.cons (fun x hx => ?_) b
+          obtain ⟨_, x2, _⟩ := a x hx
+          rw [hlw] at x2
+          exact x2
+
+/-- **segments of `map()` with columns = false**: for every tree of the domain of C03 (lines variant, cold caches) the decoded
+segments of the SourceMap `get_map` returns stand on *strictly increasing generated lines* ≥ 1, each at column 0, each on a line on
+which the text-less stream delivers a mapped chunk — a line of `source()` (`c02_final`: that chunk stands at a position of
+`source()`).  Chain: C03 lines (`Src.m3l`: the stream is sorted) ∘ the lines-only encoder writes the first mapped chunk of each
+line once (`keptLines`) ∘ C12 lines (`decode_lencode`). -/
+theorem c11_map_lines_strict (s : Src) (h : s.ModeHypL) (hn : s.ids.Nodup) (σ : Store) (hc : Cold σ s.ids) (final : Bool)
+    (hsmall : ∀ m ∈ chunkMs (s.stream ⟨false, true⟩ σ).1.evs, ∀ o, m.orig = some o → o.src < U31 ∧ o.line < U31)
+    (sm : SMap) (hm : (getMap s ⟨false, final⟩ σ).1 = some sm) :
+    (decode sm.mappings).Pairwise (fun a b => a.gl < b.gl)
+    ∧ ∀ x ∈ decode sm.mappings, x.gc = 0 ∧ 1 ≤ x.gl
+        ∧ ∃ m ∈ chunkMs (s.stream ⟨false, true⟩ σ).1.evs, m.orig.isSome = true ∧ x.gl = m.gl ∧ IsPos s.src ⟨m.gl, m.gc⟩ := by
+  have hm3 := Src.m3l s h hn σ σ hc hc
+  obtain ⟨_, _, _, _, _, _, b7⟩ := Src.base_factsL s h hn σ σ hc hc
+  simp only [getMap] at hm
+  rw [mapOfEvs_mappings_lines _ sm hm, decode_lencode _ hsmall (linesOK_of_sorted _ 1 0 hm3.sorted)]
+  have hl0 : linesOK ({} : LEncSt).lastWritten (chunkMs (s.stream ⟨false, true⟩ σ).1.evs) :=
+    linesOK_mono (Nat.zero_le 1) _ (linesOK_of_sorted _ 1 0 hm3.sorted)
+  obtain ⟨a, b⟩ := keptLines_facts _ {} hl0
+  refine ⟨b, fun x hx => ?_⟩
+  obtain ⟨x1, x2, m, hm', x3, x4⟩ := a x hx
+  have h0 : ({} : LEncSt).lastWritten = 0 := rfl
+  exact ⟨x1, by omega, m, hm', x3, x4, finOK_ms s.src _ b7 m hm'⟩
 
 end Rs
